@@ -708,6 +708,35 @@ def run_c04(ck, ctx):
         if mp != ip: dis.append((0, q[:200], f'exit={r.exit} {L.ANSI.sub("", r.stderr)[-200:]}', m[:100]))
     ck.corr['panic_model'] = dict(cases=len(reqs), disagreements=len(dis))
     report_dis(ck, 'panic_model', dis)
+    # ---- time bound proportional to the input size on a *large* input (far more packets than the bounded queues hold) whose
+    # processing ends early (error cap / fatal framing error in mid-stream), for every command mode combined with a filter and an
+    # output destination: the process must end by itself. (Small inputs never fill the queues, so a hand-off that can block is
+    # invisible on them.)
+    npk = 30000 if tier == 'quick' else 120000
+    hb = bytearray()
+    for i in range(npk):
+        f = dict(G.RDH_DEFAULT); f.update(link=i % 2 * 3, fee=0x1000 | (i % 2 * 3), orbit=10 + i // 4, page=(i // 2) % 2, stop=(i // 2) % 2, size=64, off=64, pkt=i & 0xFF)
+        if i == npk // 3: f['res0'] = 1
+        if i == 2 * npk // 3: f['off'] = 3        # fatal: offset to next out of range
+        hb += G.rdh_bytes(f)
+    big = os.path.join(wd, 'big.raw'); open(big, 'wb').write(hb)
+    outp = os.path.join(wd, 'big_out.raw')
+    bound = 20.0 + len(hb) / 1e6
+    for args in (['check', 'all', '-e', '1'], ['check', 'all', '-e', '1', '-f', '0', '-o', outp], ['check', 'sanity', 'its', '-f', '0', '-o', outp],
+                 ['view', 'rdh', '-f', '3', '-o', outp], ['view', 'rdh'], ['-f', '0', '-o', outp], ['check', 'all', 'its-stave', '-e', '2', '-F', str(0x1000), '-o', outp]):
+        t0 = time.time()
+        p = subprocess.Popen([L.BIN, big] + args, stdout=subprocess.DEVNULL, stderr=subprocess.PIPE)
+        ck.case(('big_early_stop', tuple(args))); ck.count('big_early_stop_runs')
+        try:
+            _, err = p.communicate(timeout=bound)
+        except subprocess.TimeoutExpired:
+            p.kill(); p.communicate()
+            ck.violation('hang', {'what': 'a %d-packet input whose processing stops early (error cap / fatal error in mid-stream) does not end within %.0f s' % (npk, bound),
+                                  'args': args, 'input': '%d RDH-only packets on links 0 and 3; RDH0 fault in packet %d, offset-to-next 3 in packet %d' % (npk, npk // 3, 2 * npk // 3)})
+            continue
+        err = L.ANSI.sub('', err.decode('utf-8', 'replace'))
+        if 'panicked' in err or p.returncode not in (0, 1):
+            ck.violation('crash', {'what': 'large input with early stop: panic / abnormal exit', 'args': args, 'exit': p.returncode, 'stderr': err[-400:]})
     shutil.rmtree(wd, ignore_errors=True)
     ck.sample(dict(args=jobs[5][1] + jobs[5][2], via=jobs[5][3], input_len=len(jobs[5][4])))
 
